@@ -256,10 +256,23 @@ func assertedFalseDominating(e ssa.Value, b *ssa.BasicBlock) []string {
 // capture it.
 func storesTo(al *ssa.Alloc, fn *ssa.Function) []ssa.Value {
 	var out []ssa.Value
+	// a store followed by another store to the same cell in the same block is dead at the block's end
+	killed := map[*ssa.Store]bool{}
+	for _, b := range fn.Blocks {
+		var last *ssa.Store
+		for _, in := range b.Instrs {
+			if st, ok := in.(*ssa.Store); ok && st.Addr == ssa.Value(al) {
+				if last != nil {
+					killed[last] = true
+				}
+				last = st
+			}
+		}
+	}
 	for _, ref := range *al.Referrers() {
 		switch x := ref.(type) {
 		case *ssa.Store:
-			if x.Addr == al {
+			if x.Addr == al && !killed[x] {
 				out = append(out, x.Val)
 			}
 		case *ssa.MakeClosure:
